@@ -116,14 +116,14 @@ func cmdCheck(argv []string) int {
 	} else {
 		os.MkdirAll(tmp, 0o755)
 	}
-	to := 10 * time.Second
+	to := 15 * time.Second
 	if *tier == "thorough" {
 		to = 60 * time.Second
 	}
 	if *timeoutS > 0 {
 		to = time.Duration(*timeoutS) * time.Second
 	}
-	eng.discharge(vcs, runOpts{timeout: to, all: *tier == "thorough", tmpdir: tmp, workers: 16})
+	eng.discharge(vcs, runOpts{timeout: to, all: *tier == "thorough", tmpdir: tmp, workers: 8})
 
 	rep := summarize(eng, vcs, missing, *prop, *tier, *verbose)
 	rep.WallS = time.Since(t0).Seconds()
@@ -196,6 +196,9 @@ func summarize(eng *Engine, vcs []*VC, missing []string, prop, tier string, verb
 					r.CoversOK++
 				} else {
 					r.Fails = append(r.Fails, &FailRec{Obligation: o.Name, Answer: "vacuous(" + o.Answer + ")", Solver: o.Solver, Fn: o.Fn, Kind: o.Kind, Output: o.Output})
+				}
+				if verbose {
+					fmt.Printf("  cover:%-8s %-11s %5dms %s\n", o.Answer, o.Solver, o.Ms, o.Name)
 				}
 				continue
 			}
